@@ -59,7 +59,7 @@ def budget(tier):
 
 
 @st.composite
-def st_case(draw, tier, p_restricted=0):
+def st_case(draw, tier, p_restricted=0, p_mat=1):
     S = draw(st.sampled_from([0, 0, 2]))
     T = 1
     up_cfg = Cfg(
@@ -80,7 +80,7 @@ def st_case(draw, tier, p_restricted=0):
     counter = 0
     for _ in range(draw(st.integers(0, 4))):
         cols = schema(base, leaves)
-        if draw(st.integers(0, 9)) == 0:
+        if draw(st.integers(0, 9)) < p_mat:
             node = ("mat", base, f"m{counter}")
             counter += 1
         else:
